@@ -9,6 +9,9 @@ var checks = map[string]*checkDef{
 			{workload: "C18A", variant: "instr", quick: 200000, thorough: 12000000},
 			{workload: "C18B", variant: "instr", quick: 20000, thorough: 1000000},
 			{workload: "C18C", variant: "instr-race", quick: 2000, thorough: 100000},
+			{workload: "C18D", variant: "instr-race", quick: 1600, thorough: 30000, cold: true},
+			{workload: "C18A", variant: "instr-race", quick: 16000, thorough: 0},
+			{workload: "C18B", variant: "instr-race", quick: 3200, thorough: 0},
 			{workload: "C18A", variant: "instr-race", thorough: 400000, thoroughOnly: true},
 			{workload: "C18B", variant: "instr-race", thorough: 100000, thoroughOnly: true},
 		},
@@ -85,6 +88,33 @@ var checks = map[string]*checkDef{
 			"the schnorrkel model (key expansion, witness, challenge, s, encodings) is written from the schnorrkel / Merlin definitions over the independent Merlin model and math/big; group operations inside the model are the library's Ristretto arithmetic (trusted layer), so arithmetic defects shared by both sides are invisible here",
 			"honest R is uniformly random, so an accidental second valid encoding of an altered tuple has negligible probability; any acceptance of an altered tuple is treated as a violation",
 			"a signature's R is decompressed lazily: a non-canonical or swapped R is refused at Verify/Add, not by Signature.UnmarshalBinary; the XOF-read panic and the batch 'delinearization rng' panic are accepted only under an injected reader error",
+		},
+	},
+	"C15": {
+		property: "C15", level: "exploration",
+		plan: []planItem{
+			{workload: "C15", variant: "plain", quick: 4000, thorough: 150000},
+			{workload: "C15", variant: "purego", thorough: 15000, thoroughOnly: true},
+			{workload: "C15", variant: "noavx2", thorough: 15000, thoroughOnly: true},
+			{workload: "C15", variant: "force32bit", thorough: 8000, thoroughOnly: true},
+		},
+		assume: []string{
+			"scope: the protocol layer (framing, separator octets, nonce and challenge derivation in both formats, canonicity and key-validation rules, proof_to_hash) is re-implemented from RFC 9381 with crypto/sha512 and math/big and validated against the RFC's vectors on every start; encode_to_curve (h2c suite) and curve point arithmetic are delegated to the library inside the model, so exactness of Elligator and of the group law is not decided here (C14 / C03 are not applicable to this technique)",
+			"dropping only the public-key canonicity check is undetectable by any black-box run: every decodable non-canonical encoding is a small-order point (still rejected by validate_key) or a point of unknown discrete log",
+		},
+	},
+	"C06": {
+		property: "C06", level: "exploration", differential: true,
+		plan: []planItem{
+			{workload: "C06", variant: "plain", quick: 240, thorough: 20000},
+			{workload: "C06", variant: "noavx2", quick: 240, thorough: 20000},
+			{workload: "C06", variant: "purego", quick: 240, thorough: 20000},
+			{workload: "C06", variant: "force32bit", quick: 240, thorough: 20000},
+		},
+		assume: []string{
+			"the oracle is self-differential: the same seeds are executed on the four builds (amd64 assembly + AVX2, GODEBUG=cpu.avx2=off, -tags purego, -tags force32bit) and the per-run event-log digests must be equal; a defect shared by all four backends is invisible",
+			"a backend defect that needs a rare limb pattern (a lost carry at the top of the headroom) is only found if the tour's operands produce that pattern; that residual is C04/C05 territory, which this technique does not reach",
+			"recovered panics are logged by occurrence, not by message, because two unreachable internal messages name their backend",
 		},
 	},
 }
